@@ -30,10 +30,23 @@ pub struct Ctx<'a> {
     pub nontriv:  &'a mut bool,
 }
 
+/// journal of oracle failures and of the line being executed, written through at once: if the library corrupts the heap and
+/// the process dies, what was found until then (and where it died) survives
+pub static JOURNAL: std::sync::Mutex<Option<std::fs::File>> = std::sync::Mutex::new(None);
+
+pub fn journal(line: &str) {
+    use std::io::Write;
+    if let Some(f) = JOURNAL.lock().unwrap().as_mut() {
+        let _ = writeln!(f, "{}", line);
+        let _ = f.flush();
+    }
+}
+
 impl Ctx<'_> {
     pub fn fail(&mut self, prop: &str, what: String) {
         // one line per failure in oracle.txt: panic messages and debug output may contain line breaks and tabs
         let what: String = what.chars().map(|c| if c == '\n' || c == '\r' || c == '\t' { ' ' } else { c }).collect();
+        journal(&format!("{}\t{}\t{}\t{}", self.case, self.line, prop, what));
         self.rep.oracle.push((self.case, self.line, prop.to_string(), what));
     }
     pub fn count(&mut self, key: &str) {
@@ -107,6 +120,8 @@ pub fn run_ops_opt(lines: &[String], store: bool) -> Report {
                     rep.cases.push((case, nontriv));
                 }
                 case = n.parse().unwrap_or(0);
+                // where the process is, should it die
+                journal(&format!("@case\t{}\t{}", case, ln));
                 nontriv = false;
                 in_case = true;
                 for a in areas.iter_mut() {
